@@ -8,8 +8,11 @@ Verdict-level model of `(*Schema).visitJSON` (openapi3/schema.go), default setti
                           `arrOK`, `objOK`, `visitItems`, `visitProps`
 A verdict is `true` (nil error) or `false` (an error is returned). After the repairs recorded in
 known_findings.json no panic site is left in these functions for resolved schemas.
-The request/response readings (VisitAsRequest / VisitAsResponse, with their switch-off options) are fields of `env`;
-default injection (DefaultsSet) and NaN/Inf inputs are not modelled here.
+The request/response readings (VisitAsRequest / VisitAsResponse, with their switch-off options) and
+DisablePatternValidation are fields of `env`; default injection (DefaultsSet) is modelled in Defaults.lean (`visitD`), which
+coincides with this model on schemas without `default`; NaN/Inf inputs are not JSON values and are outside `J`.
+The process-wide compiled-pattern cache is modelled in Props/C01.lean (`Cache`, `runCalls`): the code never stores
+into it (table Gen/PatternCache), so every call's regex is its own `env.regex`.
 -/
 import KinModel.Schema.Schema
 namespace KinModel.Schema
@@ -56,7 +59,7 @@ def strOK (env : Env) (kw : Kw) (s : String) : Bool :=
   kw.permits "string" &&
   (kw.minLength == 0 || decide (kw.minLength ≤ s.length)) &&
   (match kw.maxLength with | none => true | some m => decide (s.length ≤ m)) &&
-  (kw.pattern == "" || env.regex kw.pattern s == some true) &&
+  (env.patOff || kw.pattern == "" || env.regex kw.pattern s == some true) &&
   (kw.format == "" || env.strFormat kw.format s != some false)
 
 def arrOK (kw : Kw) (xs : List J) : Bool :=
